@@ -212,6 +212,30 @@ func genSpec(seed int64, i int, wire int) *Spec {
 		d := v4ifs[r.Intn(len(v4ifs))]
 		s.Cmds = append(s.Cmds, []string{"route", "append", "default", "via", gwOf(r, d), "dev", d.name, "onlink", "metric", "1", "table", "100"})
 	}
+	// IPv6 default routes (own random stream, so that everything else of a configuration stays what it
+	// was): on the interface of an IPv4 default route and on other interfaces, with lower and higher
+	// metrics than the IPv4 ones.  They are invisible to RouteList(nil, FAMILY_V4) and must not matter.
+	r6 := hlib.NewRand(seed*7000003 + int64(i)*104729 + 41)
+	var upifs []*gIface
+	for _, f := range ifs {
+		if f.up {
+			upifs = append(upifs, f)
+		}
+	}
+	n6 := 0
+	if len(upifs) > 0 && r6.Intn(10) < 7 {
+		n6 = 1 + r6.Intn(2)
+	}
+	m6 := []string{"1", "3", "20", "49", "99", "256", "1024"}
+	for k := 0; k < n6; k++ {
+		d := upifs[r6.Intn(len(upifs))]
+		c := []string{"-6", "route", "append", "default", "dev", d.name, "metric", m6[r6.Intn(len(m6))]}
+		if r6.Intn(2) == 0 {
+			c = []string{"-6", "route", "append", "default", "via", "fe80::1", "dev", d.name, "metric", m6[r6.Intn(len(m6))]}
+		}
+		s.Cmds = append(s.Cmds, c)
+		class += "6"
+	}
 	s.Class = fmt.Sprintf("veth%d-tun%d-routes[%s]-shape%d", nveth, ntun, class, shape)
 
 	// ------------------------------------------------------------------ targets
